@@ -245,6 +245,10 @@ def _conv_chunk(args):
 _QUERIES = ("tin", "tout", "fee", "validate")
 
 
+def _seq(x):
+    return [] if isinstance(x, dict) else x     # (ToJson prints an empty set nested in a record as {} or [])
+
+
 def _session_exec(ses, world, act, mult):
     """perform one action of TxSession on the object"""
     k = act[0]
@@ -270,6 +274,10 @@ def _session_exec(ses, world, act, mult):
     if k == "replace":
         t, a = world["pays"][act[2] - 1]
         return ses.replace_out(act[1], t, a * mult)
+    if k == "remove_in":
+        return ses.remove_in()
+    if k == "append_in":
+        return ses.append_in(act[1], act[2])
     raise MachineryError("unknown session action %r" % (act,))
 
 
@@ -287,44 +295,53 @@ def _session_chunk(args):
         mult = (1, 10 ** 8, 3 * 10 ** 14)[h[0] % 3]
         sc = lambda lst: [(a * mult, x) for a, x in lst]
         truth = {s: sc(o) for s, o in enumerate(world["truth"], 1)}
+        born = rec.get("born", 1)
         if "_got" in rec:
             ses = None
         else:
-            ses = drv.Session(world["ins"], truth, sc(world["un0"]), [(t, a * mult) for t, a in world["outs0"]], style=h[1])
-        last_writer = "new"
+            ses = drv.Session(world["ins"], truth, sc(world["lists"][born - 1]), [(t, a * mult) for t, a in world["outs0"]], style=h[1])
+        last_writer = "new" if born == 1 else "new(%s unspents than inputs)" % ("fewer" if len(world["lists"][born - 1]) < len(world["ins"]) else "more")
         for j, (act, ob) in enumerate(zip(rec["acts"], rec["obs"])):
-            want = _scale_r(ob["r"], mult)
+            # the admissible answers: what the spec's (refusing) machine says, and what else the standard admits
+            allowed = [_scale_r(ob["r"], mult)] + [_scale_r(x, mult) for x in _seq(ob.get("also", []))]
             w_un = [[a * mult, x] for a, x in ob["un"]]
             w_outs = [[t, a * mult] for t, a in ob["outs"]]
+            w_ins = [list(x) for x in ob["ins"]] if "ins" in ob else None
             if ses is None:        # binding self-test: canned observations
-                got, fields = rec["_got"][j], (w_un, w_outs)
+                got, fields, gins = rec["_got"][j], (w_un, w_outs), w_ins
             else:
                 got = _session_exec(ses, world, act, mult)
-                fields = ses.fields()
+                fields, gins = ses.fields(), ses.in_fields()
             n += 1
-            sess = "session %s x%d, action %d %s" % (rec["acts"], mult, j + 1, act)
-            if got[:1] == ["raise"]:
-                ok = want == ["raise"]
-            else:
-                ok = got == want
+            sess = "session %s%s x%d, action %d %s" % ("" if born == 1 else "born with list %d, " % born, rec["acts"], mult, j + 1, act)
+
+            def admitted(g):
+                return ["raise"] in allowed if g[:1] == ["raise"] else g in allowed
+            ok = admitted(got)
             if not ok:
+                want = allowed if len(allowed) > 1 else allowed[0]
                 if act[0] in _QUERIES:
                     # the same question to a fresh object with the same current fields
                     fr = None
                     if ses is not None:
-                        f = ses.fresh([tuple(u) for u in w_un], [tuple(o) for o in w_outs])
+                        f = ses.fresh([tuple(u) for u in w_un], [tuple(o) for o in w_outs], w_ins)
                         fr = _session_exec(f, world, act, mult)
-                    kind = "history-dependent" if fr is not None and (fr == want or (fr[:1] == ["raise"] and want == ["raise"])) else "value"
-                    fails.append(("C13|session|%s|%s|after=%s" % (act[0], kind, last_writer),
-                                  "%s: answered %s, the current fields (unspents %s, outputs %s) demand %s; a fresh object with "
-                                  "these fields answers %s" % (sess, got, w_un, w_outs, want, fr), {"rec": rec, "step": j, "got": got}))
+                    kind = "history-dependent" if fr is not None and admitted(fr) else "value"
+                    shape = "" if w_ins is None or len(w_un) == len(w_ins) else "|unspents%sinputs" % ("<" if len(w_un) < len(w_ins) else ">")
+                    # (an answer that is wrong for fresh and long-lived objects alike does not depend on what was done last)
+                    fails.append(("C13|session|%s|%s|after=%s%s" % (act[0], kind, last_writer, shape) if not (shape and kind == "value") else
+                                  "C13|session|%s|value%s" % (act[0], shape),
+                                  "%s: answered %s, the current fields (inputs %s, unspents %s, outputs %s) admit %s; a fresh object with "
+                                  "these fields answers %s" % (sess, got, w_ins, w_un, w_outs, want, fr), {"rec": rec, "step": j, "got": got}))
                 else:
                     fails.append(("C13|session|%s|expected=%s|got=%s" % (act[0], want[0], got[0]),
                                   "%s: %s, expected %s" % (sess, got, want), {"rec": rec, "step": j, "got": got}))
                 break
-            if [list(x) if x is not None else None for x in fields[0]] != w_un or [list(x) for x in fields[1]] != w_outs:
+            if [list(x) if x is not None else None for x in fields[0]] != w_un or [list(x) for x in fields[1]] != w_outs \
+                    or (w_ins is not None and gins != w_ins):
                 fails.append(("C13|session|%s|fields" % act[0],
-                              "%s: the object now holds unspents %s outputs %s, expected %s %s" % (sess, fields[0], fields[1], w_un, w_outs),
+                              "%s: the object now holds inputs %s unspents %s outputs %s, expected %s %s %s" % (
+                                  sess, gins, fields[0], fields[1], w_ins, w_un, w_outs),
                               {"rec": rec, "step": j, "fields": fields}))
                 break
             if act[0] not in _QUERIES and got == ["ok"]:
@@ -333,7 +350,7 @@ def _session_chunk(args):
             if ses is not None:
                 # end of session: the long-lived object and a fresh one built from the final fields agree on all totals
                 ob = rec["obs"][-1]
-                f = ses.fresh([(a * mult, x) for a, x in ob["un"]], [(t, a * mult) for t, a in ob["outs"]])
+                f = ses.fresh([(a * mult, x) for a, x in ob["un"]], [(t, a * mult) for t, a in ob["outs"]], ob.get("ins"))
                 mine = (ses.total_in(), ses.total_out(), ses.fee())
                 theirs = (f.total_in(), f.total_out(), f.fee())
                 n += 1
@@ -518,23 +535,41 @@ def _trace_scenario(rnd):
         for dbkind in rnd.sample(["honest", "missing", "wrongtx", "honest"], rnd.randint(1, 2)):
             ev.append(do_validate(dbkind))
         # a session on the same object: edits and questions in random order (TxSession.tla)
+        def ask(k, f):
+            """total_in / fee of the object as it is: answered or refused"""
+            try:
+                v = f()
+            except Exception:
+                return {"k": k, "ok": False, "v": [], "fsign": 0, "fmag": []}
+            return {"k": k, "ok": True, "v": L(v), "fsign": 0, "fmag": []} if k == "tin" else \
+                {"k": k, "ok": True, "v": [], "fsign": (v > 0) - (v < 0), "fmag": L(abs(v))}
+
         for _ in range(rnd.choice([0, 3, 4, 5, 6, 8, 10])):
             c = rnd.random()
             if c < 0.14:
-                ev.append({"k": "tin", "v": L(tx.total_in())})
+                ev.append(ask("tin", tx.total_in))
             elif c < 0.22:
                 ev.append({"k": "tout", "v": L(tx.total_out())})
             elif c < 0.40:
-                f = tx.fee()
-                ev.append({"k": "fee", "fsign": (f > 0) - (f < 0), "fmag": L(abs(f))})
+                ev.append(ask("fee", tx.fee))
             elif c < 0.50:
                 ev.append(do_validate(rnd.choice(["honest", "honest", "missing", "wrongtx"])))
+            elif c < 0.56:
+                # the inputs are edited after the unspents were installed
+                if len(tx.txs_in) > 1 and rnd.random() < 0.5:
+                    tx.txs_in.pop()
+                    ev.append({"k": "remove_in"})
+                else:
+                    s_ = rnd.randint(1, nsrc)
+                    k_ = rnd.randrange(len(truth[s_]) + 1)
+                    tx.txs_in.append(drv.TxIn(hash_of[s_], k_))
+                    ev.append({"k": "append_in", "inp": [s_, k_]})
             elif c < 0.74:
-                kind = "set" if c < 0.62 else "assign"
-                lst = [[u.coin_value, drv.SCR_OF.get(u.script, 1)] for u in tx.unspents]
+                kind = "set" if c < 0.65 else "assign"
+                lst = [[u.coin_value, drv.SCR_OF.get(u.script, 1)] for u in tx.unspents] or [[_rand_amount(rnd), 1]]
                 m = rnd.random()
                 jj = rnd.randrange(len(lst))
-                if m < 0.3:
+                if m < 0.3 and len(lst) == nin == len(tx.txs_in):
                     lst = [[truth[s][k][0], truth[s][k][1]] if k < len(truth[s]) else lst[n] for n, (s, k) in enumerate((t[0], t[1]) for t in told)]
                 elif m < 0.6:
                     lst[jj][0] = _rand_amount(rnd)
@@ -542,8 +577,11 @@ def _trace_scenario(rnd):
                     lst[jj][0] = max(1, lst[jj][0] + rnd.choice([-1, 1]))
                 else:
                     lst[jj][1] = lst[jj][1] % 4 + 1
-                if kind == "set" and rnd.random() < 0.2:
+                # a list of another length than the inputs: shorter, longer, or the right one again
+                if rnd.random() < 0.2:
                     lst = lst[:-1] if rnd.random() < 0.5 else lst + [[_rand_amount(rnd), 1]]
+                elif len(lst) != len(tx.txs_in) and rnd.random() < 0.5:
+                    lst = (lst + [[_rand_amount(rnd), rnd.randint(1, 4)] for _ in tx.txs_in])[:len(tx.txs_in)]
                 objs = []
                 for n, (a, sc) in enumerate(lst):
                     if rnd.random() < 0.5 and n < nin:
@@ -658,15 +696,22 @@ def _canned_trace():
     c1 = {"k": "conv", "dir": "s2c", "D": 8, "sat": list(str(a1)), "coin": list("20999999.99999999")}
     c2 = {"k": "conv", "dir": "c2s", "D": 5, "sat": list("10003"), "coin": list("0.10003")}
     # a session on the same object: ask, replace the unspents past the checked setter, ask again ...
-    ses = [{"k": "tin", "v": L(tin)},
+    ses = [{"k": "tin", "ok": True, "v": L(tin)},
            {"k": "assign", "un": [[L(a1 - 5), 1], [L(a2), 2]], "ok": True},
-           {"k": "fee", "fsign": 1, "fmag": L(fee - 5)},
+           {"k": "fee", "ok": True, "fsign": 1, "fmag": L(fee - 5)},
            {"k": "fromdb", "db": db, "ok": True},
-           {"k": "tin", "v": L(tin)},
+           {"k": "tin", "ok": True, "v": L(tin)},
            {"k": "append", "out": [5, L(7)]},
            {"k": "tout", "v": L(tin - fee + 7)},
            {"k": "set", "un": [[L(1), 1]], "ok": False},
-           {"k": "fee", "fsign": 1, "fmag": L(fee - 7)}]
+           {"k": "fee", "ok": True, "fsign": 1, "fmag": L(fee - 7)},
+           # the last input goes; its unspent stays: refused, or the value of the entries paired with the inputs
+           {"k": "remove_in"},
+           {"k": "tin", "ok": False, "v": []},
+           {"k": "tin", "ok": True, "v": L(a1)},
+           {"k": "append_in", "inp": [2, 0]},
+           {"k": "append_in", "inp": [2, 1]},
+           {"k": "fee", "ok": False, "fsign": 0, "fmag": []}]
     return {"ev": [build, v1, v2, c1, c2] + ses, "meta": {"lie": "canned"}}
 
 
@@ -709,6 +754,9 @@ def run(ctx):
         ctx.tlc("TxSession", "MC_TxSession_all_writers", workers=4)
         r = ctx.tlc("TxSession", "MC_TxSession_set_only", expect_ok=False, count=False, workers=2)
         ctx.selftest("model_rejects_stale_memo", (not r.ok) and r.violated == "HistoryIndependent")
+        # ... and an object that sums whatever list it holds, one entry per input or not
+        r = ctx.tlc("TxSession", "MC_TxSession_unchecked", expect_ok=False, count=False, workers=1)
+        ctx.selftest("model_rejects_unchecked_shape", (not r.ok) and r.violated == "HistoryIndependent")
         # teeth of the model: each wrong closed form must violate the rule book
         for v in ("late", "offbyone", "zero", "nofee"):
             r = ctx.tlc("TxBuild", "MC_TxBuild_mut_" + v, expect_ok=False, count=False, workers=2)
@@ -856,12 +904,23 @@ def run(ctx):
             chunks = pool.map(_record_chunk, jobs)
         traces = [t for c in chunks for t in c]
         stats = {"built": 0, "error": 0, "validate_ret": 0, "validate_raise": 0, "conv": 0, "query": 0,
-                 "writer_ok": 0, "writer_raise": 0, "query_after_unchecked_writer": 0}
+                 "writer_ok": 0, "writer_raise": 0, "query_after_unchecked_writer": 0,
+                 "query_fewer_unspents_than_inputs": 0, "query_more_unspents_than_inputs": 0, "input_edits": 0}
         for t in traces:
             stats["error" if t["ev"][0]["err"] else "built"] += 1
             asked = False
             stale = False
+            n_in, n_un = len(t["ev"][0]["ins"]), len(t["ev"][0]["unsp"])
             for e in t["ev"][1:]:
+                if e["k"] in ("tin", "fee", "validate") and n_in != n_un:
+                    stats["query_fewer_unspents_than_inputs" if n_un < n_in else "query_more_unspents_than_inputs"] += 1
+                if e["k"] in ("remove_in", "append_in"):
+                    n_in += 1 if e["k"] == "append_in" else -1
+                    stats["input_edits"] += 1
+                elif e["k"] in ("set", "assign") and e["ok"]:
+                    n_un = len(e["un"])
+                elif e["k"] == "fromdb" and e["ok"]:
+                    n_un = n_in
                 if e["k"] == "validate":
                     stats["validate_ret" if e["ret"] else "validate_raise"] += 1
                 elif e["k"] == "conv":
@@ -871,7 +930,7 @@ def run(ctx):
                     if stale and e["k"] != "tout":
                         stats["query_after_unchecked_writer"] += 1
                     asked = True
-                elif e["k"] in ("append", "replace") or e["ok"]:
+                elif e["k"] in ("append", "replace", "remove_in", "append_in") or e["ok"]:
                     stats["writer_ok"] += 1
                     if asked and e["k"] in ("assign", "fromdb"):
                         stale = True
@@ -930,15 +989,29 @@ def run(ctx):
         b13["ev"][12]["ok"] = True
         b14 = copy.deepcopy(g)       # unspents_from_db "raised" although the database holds every source
         b14["ev"][8]["ok"] = False
-        rej = validate_traces(ctx, [g, b1, b2, b3, b4, b5, b6, b7, b8, b9, b10, b11, b12, b13, b14])
-        ctx.selftest("trace_rejects_corrupted_field", rej == list(range(1, 15)))
+        b15 = copy.deepcopy(g)       # total_in that counts an unspent whose input was removed
+        b15["ev"][16]["v"] = g["ev"][0]["tin"]
+        b16 = copy.deepcopy(g)       # a fee although an input has no unspent
+        b16["ev"][19] = dict(g["ev"][13])
+        rej = validate_traces(ctx, [g, b1, b2, b3, b4, b5, b6, b7, b8, b9, b10, b11, b12, b13, b14, b15, b16])
+        ctx.selftest("trace_rejects_corrupted_field", rej == list(range(1, 17)))
     ctx.exhaustive = True
 
 
 # ------------------------------------------------------------------ sessions (history)
 
 def _session_stage(ctx, q):
-    cfg = "MC_TxSessionReplay_q" if q else "MC_TxSessionReplay_t"
+    # objects born with one unspent per input (long sessions) and with a list of another length (shorter ones)
+    world = None
+    # (thorough: sessions of 4 actions with the writers tried on 4 of the 6 lists - two of the three lists of the right
+    # length that lie about one value are left to the sessions of 3 actions, which the thorough tier runs as well)
+    for cfg in (("MC_TxSessionReplay_q", "MC_TxSessionReplay_qb") if q else
+                ("MC_TxSessionReplay_t", "MC_TxSessionReplay_q", "MC_TxSessionReplay_tb")):
+        world = _session_cfg(ctx, cfg)
+    _session_selftest(ctx, world)
+
+
+def _session_cfg(ctx, cfg):
     r = ctx.tlc("MC_TxSessionReplay", cfg, workers=16, timeout=2400)
     worlds = [x for x in r.records if isinstance(x, dict) and x.get("k") == "world"]
     recs = [x for x in r.records if isinstance(x, dict) and x.get("k") == "session"]
@@ -962,7 +1035,11 @@ def _session_stage(ctx, q):
     ctx.case(None, n)
     ctx.action("replay." + cfg, len(recs))
     for sh in shapes:
-        ctx.case(("session",) + sh, 0)
+        ctx.case(("session", cfg[-1] == "b") + sh, 0)
+    return world
+
+
+def _session_selftest(ctx, world):
     # binding self-test (independent of pycoin): canned answers against the exported expectation
     rec = {"acts": [["tin"], ["assign", 2], ["fee"]],
            "obs": [{"r": ["val", 8], "un": [[5, 1], [3, 1]], "outs": [[1, 2], [2, 1]]},
@@ -976,6 +1053,16 @@ def _session_stage(ctx, q):
     s3 = _session_chunk((world, [dict(rec, _got=[["val", 8 * m + 1], good[1], good[2]])]))[1]
     ctx.selftest("session_replay_rejects_stale_answer", not s0 and len(s1) == 1 and "|fee|" in s1[0][0]
                  and len(s2) == 1 and len(s3) == 1)
+    # ... and where the standard admits two answers (a refusal, or the value of the entries paired with the
+    # inputs) both are taken and a third one is not
+    rec = {"acts": [["remove_in"], ["tin"]],
+           "obs": [{"r": ["ok"], "also": [], "ins": [[1, 0]], "un": [[5, 1], [3, 1]], "outs": [[1, 2], [2, 1]]},
+                   {"r": ["raise"], "also": [["val", 5]], "ins": [[1, 0]], "un": [[5, 1], [3, 1]], "outs": [[1, 2], [2, 1]]}]}
+    m = (1, 10 ** 8, 3 * 10 ** 14)[hashlib.blake2b(json.dumps(rec["acts"]).encode(), digest_size=2).digest()[0] % 3]
+    t0 = _session_chunk((world, [dict(rec, _got=[["ok"], ["raise", "ValueError"]])]))[1]
+    t1 = _session_chunk((world, [dict(rec, _got=[["ok"], ["val", 5 * m]])]))[1]
+    t2 = _session_chunk((world, [dict(rec, _got=[["ok"], ["val", 8 * m]])]))[1]
+    ctx.selftest("session_replay_admits_exactly_the_admissible_answers", not t0 and not t1 and len(t2) == 1 and "|tin|" in t2[0][0])
 
 
 # ------------------------------------------------------------------ Apalache (optional, not relied on)
@@ -1082,6 +1169,11 @@ def replay(ctx, obj):
         fails = _build_chunk(([rec], False))[1]
     elif key.startswith("C13|validate"):
         fails = _validate_chunk([rec])[1]
+    elif key.startswith("C13|session"):
+        # the session refers to the constant world of TxSession.tla by index: have TLC print it again
+        r = ctx.tlc("MC_TxSessionReplay", "MC_TxSessionReplay_qb", workers=2, count=False)
+        world = [x for x in r.records if isinstance(x, dict) and x.get("k") == "world"][0]
+        fails = _session_chunk((world, [{k: v for k, v in rec.items() if k != "_got"}]))[1]
     else:
         fails = _conv_chunk(([rec], False))[1]
     for k, what, detail in fails:
